@@ -83,6 +83,7 @@ type Stats struct {
 	StepCap        bool   // MaxSteps reached
 	StallInfo      string // who waits where
 	Leaked         int    // goroutines not finished at end of run
+	WaitersAtEnd   string // goroutines waiting for locks / wait groups when the run ended
 }
 
 // Sim is one simulated run.
@@ -636,6 +637,7 @@ func (s *Sim) Run(main func()) {
 		s.mu.Lock()
 		s.stopped = true
 		s.stats.SimTime = time.Since(s.start)
+		s.stats.WaitersAtEnd = s.describeWaiters()
 		for _, g := range s.gs {
 			if g.state != gDone {
 				s.stats.Leaked++
